@@ -218,7 +218,8 @@ extern void *mpt_identifier_set(MPT_STRUCT(identifier) *id, const char *name, in
 	addr = (id->_len > id->_max) ? id->_base : 0;
 	if (len && name) {
 		int post = id->_max - len;
-		dest = memcpy(id->_val, name, len);
+		/* name may be part of current inline content */
+		dest = memmove(id->_val, name, len);
 		if (post) {
 			memset(id->_val + len, 0, post);
 		}
